@@ -133,6 +133,9 @@ theorem good_doRead (o : Conn) (p : Params) (v : View) (n : Nat) (h : GoodV o v)
       · simp [doRead, kRecv, ha, hn, hq, hr, hf]; exact h
       · simp [doRead, kRecv, ha, hn, hq, hr, hf]; exact h
   · simp [doRead, kRecv, ha, hn, hq]
+    -- dataReceived: the protocol records the bytes, then runs the due part of its `onData` script
+    unfold dataReceived
+    apply good_appOps
     obtain ⟨h1, h3, f1, f2⟩ := h
     refine ⟨?_, ?_, ?_, ?_⟩
     · simpa [Inv1, pending] using h1
@@ -210,7 +213,7 @@ theorem good_afterSend (o : Conn) (v : View) (off : Bytes) (l : Nat)
           { v.c with offset := 0, sent := v.c.sent ++ off.take l, dataBuffer := [], writing := false,
                      writeDisconnected := true } (by simp [SameData, pending]) hclr)
         split
-        · exact good_sameData o _ _ (by simp [SameData, pending, kShutWr]) h2
+        · exact good_appOps o _ _ (good_sameData o _ _ (by simp [SameData, pending, kShutWr]) h2)
         · exact h2
       · exact hclr
   · exact h
